@@ -195,7 +195,11 @@ func buildProperty(ww *conversionVisitor, node *sourcewalk.PropertyNode) (*descr
 		if required {
 			return nil, fmt.Errorf("cannot be both required and optional")
 		}
-		fieldDesc.Proto3Optional = gl.Ptr(true)
+		if fieldDesc.GetLabel() != descriptorpb.FieldDescriptorProto_LABEL_REPEATED {
+			// arrays and maps have no presence to track: a repeated field can be
+			// neither proto3-optional nor a member of the synthetic oneof
+			fieldDesc.Proto3Optional = gl.Ptr(true)
+		}
 	}
 
 	fieldDesc.Name = gl.Ptr(protoFieldName)
